@@ -10,7 +10,7 @@ SPEC = dict(
     coq_targets=["props/C23.vo"],
     drivers=[
         dict(name="syncdir", kind="main", pkg="./zzverif/c23",
-             n=dict(quick=420, thorough=6000), timeout=dict(quick=300, thorough=1500),
+             n=dict(quick=200, thorough=6000), timeout=dict(quick=300, thorough=1500),
              ev=dict(requires=["V.lib.Bytes", "V.models.SyncDir"], case_type="SyncDir.case",
                      mismatch="SyncDir.mismatch", monitor="SyncDir.monitor_fail")),
     ],
